@@ -1,3 +1,4 @@
+import GPy.C03.Gen
 import GPy.C19.Gen
 import GPy.C05.Gen
 import GPy.C16.Gen
@@ -15,5 +16,6 @@ def main (args : List String) : IO UInt32 := do
     | "C16" => GPy.C16.genMain tier seed; return 0
     | "C05" => GPy.C05.genMain tier seed; return 0
     | "C19" => GPy.C19.genMain tier seed; return 0
+    | "C03" => GPy.C03.genMain tier seed; return 0
     | _ => IO.eprintln s!"unknown property {prop}"; return 2
   | _ => IO.eprintln "usage: gpymodel <Cxx> <quick|thorough> <seed>"; return 2
